@@ -41,9 +41,17 @@ func HarnessC37TwoSubs() {
 		nk := verifrt.NondetRange("nkeys", 1, K)
 		nks[s] = nk
 		keys := make([]cid.Cid, nk)
+		fresh := 0
 		for i := range keys {
-			j := verifrt.NondetRange("key", 0, zzvPoolN-1)
+			hi := zzvPoolN - 1
+			if s == 0 && fresh < hi {
+				hi = fresh // first subscription: canonical labelling (pool members are interchangeable)
+			}
+			j := verifrt.NondetRange("key", 0, hi)
 			keys[i] = pool[j]
+			if !requested[s][j] {
+				fresh++
+			}
 			requested[s][j] = true
 		}
 		sinks[s] = zzvConsume(notif.Subscribe(ctx, keys...))
@@ -287,23 +295,45 @@ func HarnessC37Receive() {
 	bs := &Client{pm: pm, sm: sm, sim: sim, notif: pub, closing: make(chan struct{}), blockReceivedNotifier: ntf}
 
 	// interest: bit i of want[s] — session s asked for pool[i]; bit i of drop[s] — and withdrew it again
+	// interest history per CID (the two sessions are interchangeable): 0 nobody; 1 session A wants it; 2 both
+	// want it; 3 A wanted it and withdrew; 4 both wanted it, A withdrew (B still wants it); 5 both wanted it
+	// and both withdrew. The last pool member only takes histories 0..1.
 	var interested [2][zzvPoolN]bool
 	var wanted [zzvPoolN]bool
-	for s := 0; s < 2; s++ {
-		var ks, rm []cid.Cid
-		for i := range pool {
-			if verifrt.NondetRange("want", 0, 1) == 1 {
-				ks = append(ks, pool[i])
-				interested[s][i] = true
-				if verifrt.NondetRange("drop", 0, 1) == 1 {
-					rm = append(rm, pool[i])
-					interested[s][i] = false
-				}
-			}
+	closing := verifrt.NondetRange("closing", 0, 1) == 1
+	var ks, rm [2][]cid.Cid
+	for i := range pool {
+		hi := 5
+		if i == zzvPoolN-1 {
+			hi = 1
 		}
-		sim.RecordSessionInterest(sess[s].id, ks)
-		if len(rm) > 0 {
-			sim.RemoveSessionWants(sess[s].id, rm)
+		h := 1
+		if !closing {
+			h = verifrt.NondetRange("interest", 0, hi)
+		}
+		if h >= 1 {
+			ks[0] = append(ks[0], pool[i])
+			interested[0][i] = true
+		}
+		if h == 2 || h >= 4 {
+			ks[1] = append(ks[1], pool[i])
+			interested[1][i] = true
+		}
+		if h >= 3 {
+			rm[0] = append(rm[0], pool[i])
+			interested[0][i] = false
+		}
+		if h == 5 {
+			rm[1] = append(rm[1], pool[i])
+			interested[1][i] = false
+		}
+	}
+	for s := 0; s < 2; s++ {
+		sim.RecordSessionInterest(sess[s].id, ks[s])
+	}
+	for s := 0; s < 2; s++ {
+		if len(rm[s]) > 0 {
+			sim.RemoveSessionWants(sess[s].id, rm[s])
 		}
 		for i := range pool {
 			if interested[s][i] {
@@ -311,9 +341,9 @@ func HarnessC37Receive() {
 			}
 		}
 	}
-	closing := verifrt.NondetRange("closing", 0, 1) == 1
 	if closing {
 		close(bs.closing)
+		N = 1
 	}
 
 	n := verifrt.NondetRange("nblocks", 0, N)
@@ -324,11 +354,15 @@ func HarnessC37Receive() {
 		blks[j] = zzvBlock(pool[idx[j]], j+1)
 	}
 	var haves, dontHaves []cid.Cid
-	if verifrt.NondetRange("have", 0, 1) == 1 {
-		haves = append(haves, pool[verifrt.NondetRange("haveKey", 0, zzvPoolN-1)])
-	}
-	if verifrt.NondetRange("dontHave", 0, 1) == 1 {
-		dontHaves = append(dontHaves, pool[verifrt.NondetRange("dontHaveKey", 0, zzvPoolN-1)])
+	// block presences travelling with the blocks: none, one HAVE, or one DONT_HAVE (X = number of pool members
+	// they may name)
+	if X := verifrt.Param("X", 1); !closing {
+		switch verifrt.NondetRange("presence", 0, 2) {
+		case 1:
+			haves = append(haves, pool[verifrt.NondetRange("presenceKey", 0, X-1)])
+		case 2:
+			dontHaves = append(dontHaves, pool[verifrt.NondetRange("presenceKey", 0, X-1)])
+		}
 	}
 	from := peer.ID("peerA")
 	bs.receiveBlocksFrom(ctx, from, blks, haves, dontHaves)
@@ -387,4 +421,106 @@ func zzvHasCid(ks []cid.Cid, c cid.Cid) bool {
 		}
 	}
 	return false
+}
+
+// ---- want-list cleanup behind cwants: SessionManager.CancelSessionWants / RemoveSession ----------------------
+
+// zzvCancelRec is the session.PeerManager of the real SessionManager: it records the CANCELs sent to peers.
+type zzvCancelRec struct {
+	calls   int
+	cancels []cid.Cid
+}
+
+func (p *zzvCancelRec) RegisterSession(peer.ID, bspm.Session)                 {}
+func (p *zzvCancelRec) UnregisterSession(uint64)                              {}
+func (p *zzvCancelRec) SendWants(peer.ID, []cid.Cid, []cid.Cid) bool          { return true }
+func (p *zzvCancelRec) BroadcastWantHaves([]cid.Cid)                          {}
+func (p *zzvCancelRec) SendCancels(ks []cid.Cid) {
+	p.calls++
+	p.cancels = append(p.cancels, ks...)
+}
+
+// HarnessC37CancelWants: what the getter's cleanup callback triggers in the session layer. Two sessions with
+// arbitrary interest in the pool; session A gives up a key list (duplicates allowed) through
+// CancelSessionWants, or shuts down (RemoveSession). CANCEL goes to the peers for exactly those keys that A
+// wanted and nobody wants any more — never for a key the other session still wants — and afterwards an
+// arriving block for a given-up key counts as wanted iff the other session wants it.
+func HarnessC37CancelWants() {
+	L := verifrt.Param("L", 2)
+	pool := zzvPool()
+	sim := bssim.New()
+	pub := &zzvPubRec{}
+	ctx := context.Background()
+	pmr := &zzvCancelRec{}
+	sf := func(ctx context.Context, sm bssession.SessionManager, id uint64, sprm bssession.SessionPeerManager,
+		sim *bssim.SessionInterestManager, pm bssession.PeerManager, bpm *bsbpm.BlockPresenceManager,
+		notif notifications.PubSub, provSearchDelay, rebroadcastDelay time.Duration, self peer.ID) bssm.Session {
+		return &zzvSess{id: id}
+	}
+	pmf := func(id uint64) bssession.SessionPeerManager { return nil }
+	sm := bssm.New(sf, sim, pmf, bsbpm.New(), pmr, pub, peer.ID("self"))
+	a := sm.NewSession(ctx, time.Second, time.Second).(*zzvSess)
+	b := sm.NewSession(ctx, time.Second, time.Second).(*zzvSess)
+
+	var wantA, wantB [zzvPoolN]bool
+	var ka, kb []cid.Cid
+	for i := range pool {
+		switch verifrt.NondetRange("interest", 0, 3) { // 0 nobody, 1 A, 2 B, 3 both
+		case 1:
+			wantA[i] = true
+		case 2:
+			wantB[i] = true
+		case 3:
+			wantA[i], wantB[i] = true, true
+		}
+		if wantA[i] {
+			ka = append(ka, pool[i])
+		}
+		if wantB[i] {
+			kb = append(kb, pool[i])
+		}
+	}
+	sim.RecordSessionInterest(a.id, ka)
+	sim.RecordSessionInterest(b.id, kb)
+
+	var given [zzvPoolN]bool
+	if verifrt.NondetRange("shutdownSession", 0, 1) == 1 {
+		sm.RemoveSession(a.id)
+		for i := range pool {
+			given[i] = wantA[i]
+		}
+	} else {
+		n := verifrt.NondetRange("ncancel", 0, L)
+		ks := make([]cid.Cid, n)
+		for j := range ks {
+			i := verifrt.NondetRange("cancelKey", 0, zzvPoolN-1)
+			ks[j] = pool[i]
+			given[i] = true
+		}
+		sm.CancelSessionWants(a.id, ks)
+	}
+
+	var cancelled [zzvPoolN]bool
+	for _, k := range pmr.cancels {
+		i := zzvPoolIndex(pool, k)
+		verifrt.Assert("C37.cancel-only-for-given-up-wants", i >= 0 && given[i] && wantA[i])
+		if i < 0 {
+			continue
+		}
+		verifrt.Assert("C37.no-cancel-for-want-shared-with-other-session", !wantB[i])
+		verifrt.Assert("C37.cancel-sent-once-per-key", !cancelled[i])
+		cancelled[i] = true
+	}
+	for i := range pool {
+		if given[i] && wantA[i] && !wantB[i] {
+			verifrt.Assert("C37.given-up-want-is-cancelled", cancelled[i])
+		}
+	}
+	// afterwards: a block for pool[i] is wanted iff some session still wants it
+	for i := range pool {
+		still := wantB[i] || (wantA[i] && !given[i])
+		w, nw := sim.SplitWantedUnwanted([]blocks.Block{zzvBlock(pool[i], 1)})
+		verifrt.Assert("C37.interest-after-cleanup", (len(w) == 1) == still && len(w)+len(nw) == 1)
+	}
+	verifrt.Reach("end")
 }
